@@ -84,6 +84,12 @@ def gen_config(ctx):
     pmax = 4 if dim == 1 else (3 if dim == 2 else 2)
     degs = [c.intrange(1, pmax) for _ in range(dim)]
     ncoarse = [c.intrange(2, 5 if dim == 1 else (4 if dim == 2 else 2)) for _ in range(dim)]
+    wide = bool(dim <= 2 and c.chance(20))
+    if wide:
+        # a wide coarse mesh with a real interior (low degree keeps it cheap): refinements far from the
+        # boundary whose disparity closure reaches it, isolated refined islands, ...
+        degs = [min(p, 2) for p in degs]
+        ncoarse = [c.intrange(6, 12) if dim == 1 else c.intrange(5, 7) for _ in range(dim)]
     knotkind = c.weighted([('uniform', 6), ('nonuniform', 2), ('repeated', 1), ('mixed', 3)])
     if knotkind == 'mixed' and dim >= 2:
         # anisotropic knots; in half of these runs all axes share degree and size, so that only the knot
@@ -127,7 +133,9 @@ def gen_config(ctx):
     if prop in ('C03', 'C11') and dim == 2:
         maxlevel = min(maxlevel, 3)
     nops = c.intrange(2, 7)
-    return dict(dim=dim, degs=degs, ncoarse=ncoarse, knotkind=knotkind, knots0=knots0, truncate=truncate,
+    if wide:
+        maxlevel = min(maxlevel, 3 if dim == 1 else 2)
+    return dict(dim=dim, degs=degs, ncoarse=ncoarse, knotkind=knotkind, wide=wide, knots0=knots0, truncate=truncate,
                 disparity=disparity, bdspecs=bdspecs, maxlevel=maxlevel, nops=nops)
 
 
@@ -260,6 +268,23 @@ def do_refine(w, marks, kinds, via='refine', region=None, mark_truncate=False):
         ctx.check(all(actual.get(l, set()) == set(marks.get(l, [])) for l in set(actual) | set(marks)),
                   'refine-return-exact', 'with infinite disparity exactly the requested cells must be refined',
                   w.sig(what='refine-return'))
+    # probes: did the disparity closure add cells, and do only the ADDED cells touch a Dirichlet face?
+    added = {l: cs - set(marks.get(l, [])) for l, cs in actual.items()}
+    if any(added.values()):
+        ctx.count('probe.refine.closure-added-cells')
+
+        def touches(cells_by_level):
+            for l, cs in cells_by_level.items():
+                nc = m.ncells(l)
+                for (ax, side) in (w.cfg['bdspecs'] or []):
+                    k = 0 if side == 0 else nc[ax] - 1
+                    if any(c[ax] == k for c in cs):
+                        return True
+            return False
+        if touches(added) and not touches({l: set(cs) for l, cs in marks.items()}):
+            ctx.count('probe.refine.only-closure-touches-dirichlet-face')
+            if w.queried_since_refine:
+                ctx.count('probe.refine.only-closure-touches-dirichlet-face.after-cache-fill')
     m.apply_refine(actual)
     w.history.append({l: sorted(cs) for l, cs in actual.items()})
     w.nrefine += 1
